@@ -3,6 +3,7 @@ CONSTANTS
   MaxDocs = 3
   LongMax = 5
   Export = TRUE
+  BulkSizes = {12, 70}
 INVARIANT Inv_AcceptStaged
 INVARIANT Inv_ReadersExcludeCreate
 INVARIANT Inv_PermIndependent
